@@ -198,6 +198,25 @@ ZeroElsewhere(res, total, P) ==
        THEN \E p \in P : p.dst <= d /\ d < p.dst + p.size /\ res[d] = (p.src + (d - p.dst)) + 1
        ELSE res[d] = 0
 
+(* No survivor is dropped needlessly: there is no child of the old root and *)
+(* child of the new root of identical shape that could still be carried     *)
+(* over without touching what the plan already copies and without breaking  *)
+(* the order of siblings.  (Whatever explanation of the edit the plan       *)
+(* embodies, such a pair would be a surviving subtree that is not carried.) *)
+Addable(old, new, P, q) ==
+  /\ q.size > 0
+  /\ \A p \in NZ(P) : /\ (p.dst + p.size <= q.dst \/ q.dst + q.size <= p.dst)
+                       /\ (p.src + p.size <= q.src \/ q.src + q.size <= p.src)
+                       /\ ((p.src < q.src) <=> (p.dst < q.dst))
+MaximalAtRoot(old, new, P) ==
+  \* zero-size patches (empty Fn[] subtrees) take part in the sibling order but have no address
+  \* extent to compare: plans that contain one are not judged
+  (old.k = "fn" /\ new.k = "fn" /\ ~Match(old, new) /\ P = NZ(P)) =>
+    ~\E i \in 1..Len(old.ch), j \in 1..Len(new.ch) :
+        /\ Match(old.ch[i], new.ch[j])
+        /\ Addable(old, new, P, [src |-> Addr(old, <<i>>), dst |-> Addr(new, <<j>>),
+                                 size |-> Size(old.ch[i])])
+
 ---------------------------------------------------------------------------
 (* Edit scripts with survivor tracking.  A tagged tree carries in every    *)
 (* leaf the address `o` it had in the original layout (-1 = inserted).     *)
